@@ -150,4 +150,30 @@ theorem sami_plan_entries (langs : List (List (Rat × Rat))) :
     List.Perm (entries (plan langs)) ((langs.zipIdx 0).flatMap (fun p => langEntries p.2 none 0 p.1)) :=
   SamiW.plan_entries langs
 
+/-! ### written stamps separate instants (session 4) -/
+
+/-- **C02 (no two instants collide).** below 24 h two instants are written with the same stamp only if they lie in the
+    same millisecond: a writer can never print one cue's time for another cue that starts at least a millisecond apart -/
+theorem format_injective (t u : Rat) (sep : Char) (ht : wholeMicro t < 86400000000) (hu : wholeMicro u < 86400000000)
+    (h : formatTimestamp t sep = formatTimestamp u sep) : wholeMicro t / 1000 = wholeMicro u / 1000 := by
+  have a := format_denotes t sep ht
+  have b := format_denotes u sep hu
+  rw [h, b] at a
+  exact (Option.some.inj a).symm
+
+/-- the same for WebVTT's stamps (hours omitted below one hour) -/
+theorem vtt_timestamp_injective (t u : Rat) (ht : wholeMicro t < 86400000000) (hu : wholeMicro u < 86400000000)
+    (h : vttTimestamp t = vttTimestamp u) : wholeMicro t / 1000 = wholeMicro u / 1000 := by
+  have a := vtt_timestamp_denotes t ht
+  have b := vtt_timestamp_denotes u hu
+  rw [h, b] at a
+  exact (Option.some.inj a).symm
+
+/-- the written millisecond count never runs ahead of the instant and lags it by less than a millisecond (truncation,
+    not rounding), and written stamps are monotone: a later instant is never written as an earlier millisecond -/
+theorem written_ms_truncates (us vs : Nat) (h : us ≤ vs) :
+    us / 1000 * 1000 ≤ us ∧ us < us / 1000 * 1000 + 1000 ∧ us / 1000 ≤ vs / 1000 := by omega
+
+/-- the bound is needed: the formatter drops whole days, so 0 s and 24 h are written alike (outside the property's domain) -/
+example : formatTimestamp 0 ',' = formatTimestamp 86400000000 ',' := by decide +kernel
 end PcVerif.Props.C02
